@@ -110,3 +110,26 @@ CLAIMED.update({
            'mode numbers that pass validation are ones the kernel factories know, no decode-table subscript outside the table for any key text.'),
 })
 NOT_CLAIMED = {}
+
+# clauses added in seeding round 5 (value and sequence slips)
+_R5 = {
+ 'C01': 'No branch of an operation is decided by a byte count after a conversion that cannot hold its range (R01.j); a buffer handed '
+        'over after a FULL load is exported whole in every group state (R01.k, relational buffer shape by fixpoint).',
+ 'C02': 'The length of the output changes by writes only (no ftruncate, R02.h); sizes keep their range (R01.j).',
+ 'C03': 'A buffer that was loaded FULL is exported whole whatever the group state is when it comes back (R01.k).',
+ 'C04': 'The loops of the three operations cannot return to a state with every decision closed (a read at end of input delivers '
+        'nothing, for ever); a write error reported by ferror cannot end the I/O loop with live workers.',
+ 'C05': 'Header members are read back from the offsets the writer uses and no accepting path skips the read (R08.r); the unit count of a '
+        'completely filled hash buffer fits the members that hold it.',
+ 'C06': 'The key a successful parse returns was decoded from the argument of the key option (R06.k).',
+ 'C07': 'The string driver is decided for every length its parameter type can hold (a narrowing conversion that decides the loop is reported).',
+ 'C08': 'The hash-mode byte used for the tag is the one read from the writer\'s offset on every accepting path (R08.r).',
+ 'C09': 'A member that the block transform writes is never read in a call before that call wrote it (R09.m; otherwise undecided).',
+ 'C11': 'The tag engine used twice on one object writes every digest into a buffer that holds it (R11.h); no loop of decrypt/verify can spin; '
+        'sizes keep their range (R01.j).',
+ 'C12': 'No loop of decrypt/verify can spin at end of input (R04.f); sizes keep their range (R01.j).',
+ 'C17': 'Constant tables subscripted during the parse stay in range (R17.t); floating intervals converted to integers fit the type (R17.v).',
+ 'C18': 'Arithmetic on rand() stays inside its type (R18.s); a typed seed is read with a width not smaller than the seed array (R18.w).',
+}
+for _k, _v in _R5.items():
+    CLAIMED[_k]['text'] = CLAIMED[_k]['text'] + ' ' + _v
